@@ -22,6 +22,7 @@ def errName : Err → String
   | .ambiguous => "AmbiguousMethodException"
   | .tooLarge => "CollectionTooLargeException"
   | .wrappedStop => "WrappedException"
+  | .unknownMethod => "NoMethodRegisteredException"
   | .outOfDomain => "OOD"
 
 def chars (j : Json) : List Char := (asStr j).toList
@@ -153,7 +154,8 @@ def opOfJson (j : Json) : Option Op :=
 /-- `"opts":{"id":bool,"tl":bool,"sl":bool,"ci":bool,"lim":n|null,"co":bool}`: the options of the engine the statement belongs to -/
 def optsOfJson (j : Json) : Opts :=
   { iterableDicts := jbool j "id", tuplesToLists := jbool j "tl", setsToLists := jbool j "sl", convertInput := jbool j "ci",
-    limit := jnatOpt j "lim", convertOutput := !(jhas j "co") || jbool j "co" }
+    limit := jnatOpt j "lim", convertOutput := !(jhas j "co") || jbool j "co",
+    aggFallback := !(jhas j "af") || jbool j "af", noSets := jbool j "ns" }
 
 /-- `"obs":{"shape":"letPair","u":<op>,"u2":<op>}`: the observing program around the pipeline's result -/
 def obsOfJson (j : Json) : Option Obs := do
